@@ -10,6 +10,7 @@ import Lemmas.OptimalOwn
 import Lemmas.InplaceWrap
 import Lemmas.Ansi
 import TextwrapModel.Tables
+import Lemmas.LinebreakTable
 namespace TW.C05
 
 theorem trimEndSp_append_spaces (x sp : Text) (h : ∀ c ∈ sp, c = SP) : trimEndSp (x ++ sp) = trimEndSp x := by
@@ -763,5 +764,26 @@ theorem fits_one_line_optimal_own (env : Env) (hsp : env.cw SP = 1) (o : Opts)
     wrapSingleLineSlow env (ownMinima (α := Int) p) o line nPrev = some (specLines o [frs] 0 nPrev) :=
   fits_one_line_optimal_safe env hsp _ o hb p halg hP line hsafe nPrev frs hpipe
     (moConforms_own p frs (pipeline_noPen env o hb line _ frs hpipe) _ (by simp)) hfit
+
+
+/-! ### with the model's own `linebreaks` too
+
+For an environment that runs the transcription of `unicode_linebreak::linebreaks` on the compiled
+tables, the remaining clause is a theorem for paragraphs without hard-line-break characters
+(`HardFree`: none of U+000B, U+000C, U+000D, U+0085, U+2028, U+2029 — the paragraph separator
+itself never occurs inside a paragraph); after such a character the crate does report an
+opportunity directly before a space (`TW.ownOpps_space_after_hard`), so the restriction is exact. -/
+
+/-- **`wrap`'s shortcut is unobservable, both separators, both algorithms — no contract of an
+    external crate**: `smawk` and `unicode_linebreak` are inside the model -/
+-- @audit TW.C05.wrap_shortcut_unobservable_ownlb
+theorem wrap_shortcut_unobservable_ownlb (env : Env) (henv : env.opps = ownOpps lbTables)
+    (hcw : ∀ c, env.cw c ≤ c.utf8Size)
+    (o : Opts) (hb : Builtin o.splitter) (pen0 : Penalties)
+    (halg : o.alg = .firstFit ∨ (o.alg = .optimalFit pen0 ∧ 0 < pen0.nline)) (text : Text)
+    (hf : ∀ p ∈ splitEnding o.lineEnding text, blen p < o.width → o.sep = .unicode → HardFree (stripAnsi p)) :
+    wrap env (ownMinima (α := Int) pen0) o text = wrapNoShortcut env (ownMinima (α := Int) pen0) o text :=
+  wrap_shortcut_unobservable_own env hcw o hb pen0 halg text fun p hp hlt hu =>
+    ⟨oppsNoSpace_own env henv _ (hf p hp hlt hu), boundary_own env lbTables henv _⟩
 
 end TW.C05
